@@ -215,7 +215,11 @@ def _c06_judge(case):
     tdt = torch.float32 if case["dtype"] == "float32" else torch.float64
     A = lambda a: None if a is None else np.array(a, dtype=dt)
     T = lambda a: None if a is None else sg.Tensor(A(a))
-    TT = lambda a: None if a is None else torch.tensor(A(a), dtype=tdt)
+    unc = case.get("uncentred")
+    if unc:
+        # uncentred batch (|mean| >> std): the reference is the two-pass result in float64 on the dtype-rounded operands
+        tdt = torch.float64
+    TT = lambda a: None if a is None else torch.tensor(A(a).astype(np.float64) if unc else A(a), dtype=tdt)
     x = A(case["x"])
     kind = case["kind"]
     with torch.no_grad():
@@ -262,6 +266,8 @@ def _c06_judge(case):
     except Exception as ex:
         return ref.tolist(), "raised " + repr(ex)[:200], "the forward call raises on an input PyTorch accepts"
     tol = (1e-4 if case["dtype"] == "float32" else 1e-9) * max(1.0, float(np.max(np.abs(ref))) if ref.size else 1.0)
+    if unc:
+        tol = (4e-6 * unc if case["dtype"] == "float32" else 1e-7) * max(1.0, float(np.max(np.abs(ref))))   # float32 input spacing ~ 1e-7*|mean| = 1e-7*ratio*std
     if obs.size != ref.size:
         return ref.tolist(), obs.tolist(), "result has %d elements (shape %s), PyTorch's has %d (shape %s)" % (obs.size, obs.shape, ref.size, ref.shape)
     # shapes are compared STRICTLY.  The one deviation of the unchanged tree -- the per-row loss of nll_loss / cross_entropy
@@ -281,6 +287,8 @@ def _c06_judge(case):
         for name, o, r in zip(("running_mean", "running_var"), obs_stats, ref_stats):
             o, r = o.astype(np.float64), r.astype(np.float64)
             t = (1e-4 if case["dtype"] == "float32" else 1e-9) * max(1.0, float(np.max(np.abs(r))))
+            if unc:
+                t = (4e-6 * unc if case["dtype"] == "float32" else 1e-7) * max(1.0, float(np.max(np.abs(r))))
             if o.shape != r.shape or np.any(np.abs(o - r) > t):
                 return {name: r.tolist()}, {name: o.tolist()}, "%s after the call differs from PyTorch's buffer (update uses the unbiased variance var*n/(n-1))" % name
     return None
@@ -322,6 +330,22 @@ def oracle_c06(ctx):
                                     "running_var": rs.uniform(0.3, 3, C).tolist() if stats else None}
                             cases.append(dict(base, kind="bn_functional"))
                             cases.append(dict(base, kind="bn_layer"))
+    # uncentred batches: |mean|/std = 1e2, 1e3, 1e4 (a one-pass variance E[x^2]-E[x]^2 loses all precision there)
+    for dtype in ("float32", "float64"):
+        for ratio in (1e2, 1e3, 1e4):
+            for training in (True, False):
+                for stats in (True, False):
+                    for _ in range(reps):
+                        C = int(rs.randint(1, 3))
+                        shape = (int(rs.randint(4, 9)), C) + ((int(rs.randint(2, 4)),) if rs.rand() < 0.5 else ())
+                        std = float(rs.choice([0.5, 2.0]))
+                        base = {"dtype": dtype, "training": training, "momentum": 0.1, "eps": 1e-5, "uncentred": ratio,
+                                "x": (rs.standard_normal(shape) * std + ratio * std * float(rs.choice([-1, 1]))).tolist(),
+                                "weight": rs.uniform(0.5, 2, C).tolist(), "bias": rs.uniform(-1, 1, C).tolist(),
+                                "running_mean": (rs.uniform(-1, 1, C) + ratio * std).tolist() if stats else None,
+                                "running_var": rs.uniform(0.3, 3, C).tolist() if stats else None}
+                        cases.append(dict(base, kind="bn_functional"))
+                        cases.append(dict(base, kind="bn_layer"))
     witnesses = 0
     by = {}
     shape_dev = {}          # site -> (count, smallest case, verdict): the (N,1)-vs-(N,) deviation, reported once per site
@@ -343,8 +367,9 @@ def oracle_c06(ctx):
                     or "nn.%s/forward" % case["cls"]
                 klass = "%s %s" % (case["dtype"], "dim=%s" % case["dim"] if "dim" in case else
                                    ("reduction=%s" % case["reduction"] if "reduction" in case else
-                                    "training=%s affine=%s running=%s rank=%d" % (case["training"], case["weight"] is not None,
-                                                                                   case["running_mean"] is not None, np.ndim(case["x"]))))
+                                    "training=%s affine=%s running=%s rank=%d%s" % (case["training"], case["weight"] is not None,
+                                                                                     case["running_mean"] is not None, np.ndim(case["x"]),
+                                                                                     " uncentred |mean|/std=%g" % case["uncentred"] if case.get("uncentred") else "")))
                 ctx.witness(site, klass, dict(case, oracle="c06"), v[0], v[1], v[2])
     n_shape = 0
     for site, (cnt, case, v) in sorted(shape_dev.items()):
@@ -421,7 +446,8 @@ def oracle_c13_stats(ctx):
         shape = (int(rs.randint(2, 5)), int(rs.randint(1, 4))) + tuple(int(rs.randint(1, 4)) for _ in range(rank - 2))
         C = shape[1]
         aff = rs.randint(0, 2)
-        case = {"oracle": "c13", "x": (rs.standard_normal(shape) * 2 + rs.uniform(-3, 3)).tolist(),
+        off = 2e5 * float(rs.choice([-1, 1])) if k % 4 == 0 else rs.uniform(-3, 3)      # every 4th batch is uncentred: |mean|/std = 1e5
+        case = {"oracle": "c13", "x": (rs.standard_normal(shape) * 2 + off).tolist(),
                 "running_mean": rs.uniform(-2, 2, C).tolist(), "running_var": rs.uniform(0.3, 3, C).tolist(),
                 "weight": rs.uniform(-2, 2, C).tolist() if aff else None, "bias": rs.uniform(-2, 2, C).tolist() if aff else None,
                 "training": bool(rs.randint(0, 2)), "momentum": float(rs.choice([0.1, 0.3, 0.9])), "eps": float(rs.choice([1e-5, 1e-3, 0.1]))}
